@@ -932,3 +932,39 @@ package geom
 //@   requires strideOf(layout) >= 0 && (len(flatCoords) == 0 || len(flatCoords) == strideOf(layout))
 //@   ensures fresh(res) && wf0(res) && res.layout == layout && res.srid == 0
 //@   modifies nothing
+
+// ---------------------------------------------------------------------------
+// level 3 flattening: every polygon contributes one row of absolute ring ends
+
+//@ func deflate3
+//@   lemmas wholeMul
+//@   requires stride >= 0 && flatCoords == nil && endss == nil
+//@   ensures res3 != nil ==> res1 == nil && res2 == nil && istype(res3, ErrStrideMismatch) && unbox(res3, ErrStrideMismatch).Want == stride
+//@   ensures res3 == nil ==> len(res2) == len(coords3) && endssOK(res2, len(res1), stride) && (fresh(res1) || res1 == nil) && (fresh(res2) || res2 == nil)
+//@   ensures res3 == nil ==> forall p int :: 0 <= p && p < len(coords3) ==> len(res2[p]) == len(coords3[p])
+//@   modifies nothing
+//@   at stmt4: assert err == nil ==> len(ends) == len(coords2) && (fresh(ends) || ends == nil) && gflat <= len(flatCoords) && (len(ends) == 0 ==> len(flatCoords) == gflat) && (len(ends) > 0 ==> ends[len(ends)-1] == len(flatCoords))
+//@   at stmt4: assert err == nil ==> forall r int :: 0 <= r && r < len(ends) ==> gflat <= ends[r] && ends[r] <= len(flatCoords) && (r > 0 ==> ends[r-1] <= ends[r] && whole(ends[r] - ends[r-1], stride)) && (r == 0 ==> whole(ends[0] - gflat, stride))
+//@   at stmt7: assert len(endss) == idx + 1 && len(endss[idx]) == len(ends) && forall r int :: 0 <= r && r < len(ends) ==> endss[idx][r] == ends[r]
+//@   at stmt7: assert forall q int :: 0 <= q && q < idx ==> endss[q] == gh[q]
+//@   loop 1:
+//@     ghost gh [][]int = endss step endss
+//@     ghost gflat int = len(flatCoords) step len(flatCoords)
+//@     invariant gh == endss && gflat == len(flatCoords)
+//@     invariant len(endss) == idx && endssOK(endss, len(flatCoords), stride) && (fresh(flatCoords) || flatCoords == nil) && (fresh(endss) || endss == nil)
+//@     invariant forall p int :: 0 <= p && p < idx ==> len(endss[p]) == len(coords3[p]) && (fresh(endss[p]) || endss[p] == nil)
+//@     invariant forall p, i, j int :: 0 <= p && p < len(coords3) && 0 <= i && i < len(coords3[p]) && 0 <= j && j < len(coords3[p][i]) ==> !fresh(coords3[p][i][j])
+
+//@ func geom3.setCoords
+//@   requires g.stride >= 0
+//@   ensures res != nil ==> istype(res, ErrStrideMismatch) && unbox(res, ErrStrideMismatch).Want == g.stride
+//@   ensures res == nil ==> len(g.endss) == len(coords3) && endssOK(g.endss, len(g.flatCoords), g.stride)
+//@   ensures g.layout == old(g.layout) && g.stride == old(g.stride) && g.srid == old(g.srid)
+//@   modifies *g
+
+//@ func MultiPolygon.SetCoords
+//@   requires strideOK(g.layout, g.stride)
+//@   ensures res2 != nil ==> res1 == nil && istype(res2, ErrStrideMismatch) && unbox(res2, ErrStrideMismatch).Want == g.stride
+//@   ensures res2 == nil ==> res1 == g && wf3(g) && len(g.endss) == len(coords)
+//@   ensures g.layout == old(g.layout) && g.stride == old(g.stride) && g.srid == old(g.srid)
+//@   modifies *g
